@@ -164,7 +164,7 @@ def group_runs(g, tier):
                 W('ovlsh(2)', 'random', walks=15 * k, length=40, ops=T, split=True, lower_only=True),
                 W('ovlsub(2)', 'random', walks=15 * k, length=40, ops=T, split=True, lower_only=True)]
     if g == 'emb':
-        return [dict(kind='emb', tspec='Trace_Tree')]
+        return [dict(kind='emb', tspec='Trace_Tree')] + [dict(kind='embdyn', names=nm, tspec='Trace_Tree') for nm in (('ascii', 'prefix2') if q else ('ascii', 'prefix', 'prefix2', 'dotted', 'multi', 'rnd'))]
     if g == 'faults':
         k = 1 if q else 15
         cfgs = [('fault(mem)', 60, False), ('alt(zr,fault(mem))', 40, False), ('ovl(fault(mem),mem)', 40, True), ('ovl(mem,fault(mem))', 60, True),
@@ -298,6 +298,13 @@ def run_group(g, tier, seed, use_cache=True):
                     raise ToolError('model checking of %s failed:\n%s' % (mname, mc.get('tail', '')))
                 mcs[mname] = mc
             s = harness(['emb', '--out', out])
+        elif r['kind'] == 'embdyn':
+            mc = run_mc('MC_Embedded_r', 'MC_Embedded_r')
+            if not mc['ok']:
+                raise ToolError('model checking of MC_Embedded_r failed:\n%s' % mc.get('tail', ''))
+            mcs['MC_Embedded_r'] = mc
+            cases = ensure_lts('MC_Embedded_r', 'MC_Embedded_r_emit', tags=('CASE',))
+            s = harness(['embdyn', '--cases', cases, '--names', NM(r['names'], seed, i), '--out', out])
         elif r['kind'] == 'faults':
             inst = r['lts']
             if inst not in ltsfiles:
